@@ -1,3 +1,4 @@
+import os
 from vlib.runner import Ob
 
 # sliced service ids (sliced.h)
@@ -60,12 +61,25 @@ def obligations(tier, seed):
         frame([TTX, VPS, WSS], [320, 16, 23], TS=1, PMIN=184, PMAX=184, FIXED=1, DI="0x1F"),           # wrong order: rejected, nothing emitted
         frame([TTX, TTX, TTX, TTX], [7, 8, 9, 10], TS=0, PMIN=184, PMAX=184, FIXED=0, DI="0x9B"),      # too big for max size: rejected
         frame([VPS, WSS], [16, 23], TS=0, PMIN=368, PMAX=368, FIXED=0, DI="0x9A"),                      # minimum size 368: stuffing units 0xFF len 0xFF
+        # frame boundary by an EQUAL line number (one-line-per-frame streams: the second frame is one Teletext line F2L)
+        frame([TTX], [7], TS=0, PMIN=184, PMAX=184, FIXED=1, DI="0x10", F2L=7),
+        frame([TTX, VPS, CC, TTX], [7, 16, 21, 22], TS=1, PMIN=184, PMAX=368, FIXED=1, DI="0x10", F2L=22),   # 2 TS packets (see ts_first_pes below)
     ]
+    # SUSPECTED DEFECT of /repo (dvb_demux.c demux_ts_packet, branch "Possible after resynchronization"): when the first PES packet after TS
+    # synchronisation is exactly one TS packet long (184 bytes), its payload is copied with ts_pes_todo reaching 0 in that branch, where the
+    # "PES packet is complete" test (only made on the `consume > 0` path) is never run; the next TS packet then restarts at pes_buffer and the first
+    # frame is lost.  Refuted + replayed natively by this instance (e2e_one_frame_delivered); not in any grid until /repo is repaired:
+    ts_first_pes = [frame([TTX, TTX], [22, 320], TS=1, PMIN=184, PMAX=184, FIXED=0, DI="0x99", F2L=320)]
+    if os.environ.get("VERIF_C06_TS_FIRST_PES"):
+        pk_q = pk_q + ts_first_pes
+    pk_eq_t = [frame([VPS], [16], TS=0, PMIN=184, PMAX=184, FIXED=1, DI="0x10", F2L=16)] + \
+              [frame([TTX], [l], TS=0, PMIN=184, PMAX=184, FIXED=0, DI="0x99", F2L=l) for l in (22, 335)] + \
+              [frame([TTX, TTX], [7, 0], TS=0, PMIN=184, PMAX=184, FIXED=0, DI="0x99", F2L=7)]      # undefined line last: boundary by line 7 <= 7
     pk_t = pk_q + [
         frame([TTX, VPS, CC, WSS, TTX, TTX, TTX], [7, 16, 21, 23, 320, 321, 0], TS=t, PMIN=184, PMAX=552, FIXED=f, DI=d)
         for t in (0, 1) for (f, d) in ((1, "0x10"), (0, "0x99"))
     ] + [frame([TTX, CC], [22, 21], TS=1, PMIN=184, PMAX=368, FIXED=0, DI="0x99"),
-         frame([WSS], [23], TS=1, PMIN=368, PMAX=552, FIXED=1, DI="0x12")]
+         frame([WSS], [23], TS=1, PMIN=368, PMAX=552, FIXED=1, DI="0x12")] + pk_eq_t
     bad_frames = [
         frame([TTX, TTX], [8, 7], FIXED=1, DI="0x10"),                   # descending
         frame([TTX, VPS, TTX], [7, 17, 320], FIXED=0, DI="0x99"),        # VPS on line 17
@@ -77,14 +91,17 @@ def obligations(tier, seed):
     rej_t = [dict(f, TS=t, PMIN=184, PMAX=184) for f in bad_frames for t in (0, 1)]
     cor_frames = [frame([TTX, VPS, WSS], [7, 16, 23], FIXED=1, DI="0x10"), frame([CC, TTX], [21, 320], FIXED=0, DI="0x99"), bad_frames[0], bad_frames[3]]
     cor_q = [dict(cor_frames[0], TS=1, PMIN=184, PMAX=184, OBUF=50), dict(cor_frames[1], TS=0, PMIN=184, PMAX=184, OBUF=184),
-             dict(cor_frames[2], TS=1, PMIN=184, PMAX=184, OBUF=64)]
+             dict(cor_frames[2], TS=1, PMIN=184, PMAX=184, OBUF=64),
+             # rejected for its SIZE (generate_pes_packet succeeds on a truncated packet), then a valid frame: both output modes
+             dict(cor_frames[3], TS=1, PMIN=184, PMAX=184, OBUF=64), dict(cor_frames[3], TS=0, PMIN=184, PMAX=184, OBUF=100)]
     cor_t = cor_q + [dict(f, TS=t, PMIN=184, PMAX=184, OBUF=o) for f in cor_frames[:2] for t in (0, 1) for o in (1, 3, 187, 188, 189, 400)] \
-                  + [dict(cor_frames[3], TS=0, PMIN=184, PMAX=184, OBUF=100)]
+                  + [dict(cor_frames[3], TS=t, PMIN=184, PMAX=184, OBUF=o) for t in (0, 1) for o in (1, 188, 400)]
     uw_rt = {"extract_data_units.8": 12, "encode_stuffing.0": 10, "memcpy.0": 1000, "memset.0": 1000, "memmove.0": 1000, "memmove.1": 1000}
     uw_pk = dict(uw_rt); uw_pk.update({"rec_cb.0": 600, "gather_pes.0": 600, "gather_pes.1": 600, "gather_pes.2": 600, "check_stuffing_tail.0": 300,
                                        "demux_pes_packet.1": 4, "demux_pes_packet.3": 12, "demux_pes_packet_frame.1": 3, "demux_ts_packet.0": 4,
                                        "demux_ts_packet.9": 16, "rdx_cb.0": 12})
     fs = ["--max-field-sensitivity-array-size", "1200"]
+    fs_big = ["--max-field-sensitivity-array-size", "1600"]
     # reset_frame(): `if (f->rp > f->raw)` compares two NULL pointers when no raw buffer is attached (always, through the public API).  CBMC's pointer
     # check treats a relational comparison of NULL pointers as a fatal failure and reports every later property UNKNOWN.  The comparison is rewritten
     # to compare the addresses as integers (same result on every supported platform); recorded as a cut + ub_note in the report.
@@ -161,13 +178,27 @@ def obligations(tier, seed):
            assumes=pk_assumes, bounds="bad frames on the grid", grid=rej_t, quick_grid=rej_q, reach=["end"], timeout=300, mem_gb=3, vin_size=700,
            stubs=stubs + [loopmem], **common),
         Ob("mux_cor_equals_feed", func="h_mux_cor_equiv", unwind=51, flags=fs, defines={"ENV_LOOP_MEM": 1, "PIDV": "0x10", "G_MX": None}, patch={"src/dvb_mux.c": [PE]},
-           unwindset=dict(uw_pk, **{"h_mux_cor_equiv.3": 401, "h_mux_cor_equiv.2": 401, "h_mux_cor_equiv.4": 401}),
+           unwindset=dict(uw_pk, **{"h_mux_cor_equiv.%d" % k: 401 for k in range(2, 10)}),
            desc="the same frame (structure on the grid, payload/PTS/PID symbolic) through vbi_dvb_mux_feed (callback) and through vbi_dvb_mux_cor drained with an OBUF byte "
                 "buffer: same verdict, same byte sequence, buffer pointer/left consistent, every call makes progress and fills the buffer unless the frame is finished; "
-                "a rejected frame emits nothing and *sliced/*sliced_left name the remaining lines",
+                "a rejected frame emits nothing and *sliced/*sliced_left name the remaining lines; HISTORY: after the first frame (accepted, rejected for its content or "
+                "rejected for its size - grid) a second valid frame gives the same bytes through both interfaces (no stale coroutine state)",
            encodes=["vbi_dvb_mux_cor", "vbi_dvb_mux_feed", "generate_pes_packet", "generate_ts_packet_header"],
            assumes=pk_assumes, bounds="one PES packet of 184 bytes, OBUF on the grid (1..400 bytes)",
            outside="coroutine with PES packets > 184 bytes", grid=cor_t, quick_grid=cor_q, reach=["end"], timeout=300, mem_gb=3, vin_size=700,
+           stubs=stubs + [loopmem], **common),
+        Ob("demux_max_frame", func="h_demux_maxframe", unwind=51, flags=fs_big, defines={"ENV_LOOP_MEM": 1, "G_PK": None},
+           unwindset=dict(uw_pk, **{"extract_data_units.8": 36}), patch={"src/dvb_demux.c": [RF], "src/dvb_mux.c": [PE]},
+           desc="capacity of the real demultiplexer object (real vbi_dvb_demux_reset, its own frame array, nothing re-pointed): the biggest frame the multiplexer "
+                "accepts - all 33 permitted lines 7..23/320..335 (Teletext, VPS 16, Caption 21, WSS 23), encoded by the real vbi_dvb_multiplex_sliced - is stored "
+                "completely by demux_pes_packet_frame, is not delivered early, and is delivered exactly once with all 33 lines/services (payload of the first, the VPS "
+                "and the last line compared) when the next packet starts a new frame (Teletext line F2L); the new frame's line is pending",
+           encodes=["demux_pes_packet_frame", "extract_data_units", "line_address", "vbi_dvb_demux_reset", "reset_frame", "struct _vbi_dvb_demux.sliced"],
+           assumes=["reset_frame(): NULL > NULL pointer comparison rewritten to an integer comparison (patch), see ub note",
+                    "line structure and data_identifier concrete (the one maximal frame); payload of lines 0, 9, 32 and of the second frame symbolic"],
+           bounds="the one maximal 33-line frame; data units handed to demux_pes_packet_frame directly (PES/TS layer: mux_packets_*)",
+           outside="frames with more than 33 lines by repeated undefined (0) line numbers - the multiplexer accepts them, the 64 entry frame array cannot hold them",
+           grid=[dict(F2L=7), dict(F2L=335)], quick_grid=[dict(F2L=335)], reach=["end", "maxframe"], timeout=300, mem_gb=3, vin_size=256,
            stubs=stubs + [loopmem], **common),
         Ob("mux_ctor", func="h_mux_ctor", unwind=51, unwindset={"memset.0": 1000}, defines={"ENV_LOOP_MEM": 1, "G_MX": None},
            desc="vbi_dvb_pes_mux_new / vbi_dvb_ts_mux_new(pid symbolic) return an object whose every field and initialised PES header bytes equal the directly constructed "
